@@ -91,6 +91,33 @@ theorem emission_ready_for_every_graph (g : Graph) (comps : List (List Nat))
     (progReady_of_topo (RotoV.Tarjan.validOrder_sound g comps hv) hc clones drops eqs helpersOf dropOf hH hS)
   ⟨st, h1, h2⟩
 
+/-- **The same without any certificate**: for every reference graph (distinct
+keys) for which `find_compilation_order` returns an order `o`, the script items
+of `o` emitted in the order read from the source make the code generator's loop
+complete and run every initialiser once, in that order (`order_topological`
+supplies what `validOrder` supplied per run). -/
+theorem emission_ready_for_every_accepted_graph (g : Graph) (hkeys : g.keys.Nodup) (o : List Nat)
+    (ho : findCompilationOrder g = .ok (.order o))
+    (clones drops eqs : List HItem) (helpersOf : Nat → List (EmitGroup × Nat)) (dropOf : Nat → Nat)
+    (hH : (clones ++ drops ++ eqs).all (fun x => x.refs.all
+      (helperOk (progOfGraph g o clones drops eqs helpersOf dropOf))) = true)
+    (hS : ∀ n, (helpersOf n).all (helperOk (progOfGraph g o clones drops eqs helpersOf dropOf)) = true
+      ∧ dropOf n < drops.length) :
+    ∃ st, cgLir (lowerProg (progOfGraph g o clones drops eqs helpersOf dropOf)
+        RotoV.Gen.C14Emit.programOrder) = .ok st ∧
+      st.runs.map Prod.fst =
+        (sConstIdx 0 (progOfGraph g o clones drops eqs helpersOf dropOf).items).map
+          ((clones.length + drops.length + eqs.length) + ·) := by
+  obtain ⟨comps, ht, hoc, hc⟩ := order_inv g o ho
+  subst hoc
+  have topo := order_topological g hkeys comps ht
+  obtain ⟨st, h1, h2, _⟩ := emission_order_ready _
+    (progReady_of_topo topo hc clones drops eqs helpersOf dropOf hH hS)
+  exact ⟨st, h1, h2⟩
+
+example : findCompilationOrder ⟨[(0, [1]), (1, [2]), (2, [])], fun n => if n = 1 then .func else .const⟩
+    = .ok (.order [2, 1, 0]) := by decide
+
 /-- non-vacuity of the graph form: `K0 → f1 → K2` (the constant `K0` calls `f1`, which reads `K2`),
 components `[[2], [1], [0]]`, one drop function: `K2` is evaluated before `K0` -/
 example : validOrder ⟨[(0, [1]), (1, [2]), (2, [])], fun n => if n = 1 then .func else .const⟩ [[2], [1], [0]] = true := by
